@@ -90,3 +90,30 @@ Definition py_begin (d : Z) (b s : option Z) : Z :=
   | None => if 0 <? step then 0 else d - 1
   end.
 Definition py_step (s : option Z) : Z := match s with Some x => x | None => 1 end.
+
+(* Source multi-index read by result index [ridx] of a[slice] (Python/NumPy basic indexing), for
+   a slice whose Ellipsis has already been expanded into full sub-ranges ([clean]): a single
+   index selects that coordinate and removes the axis, b:e:s selects begin + step * i, axes
+   beyond the slice are taken whole. *)
+Fixpoint slice_src (shape : list Z) (clean : list slice_elem) (ridx : list Z) : list Z :=
+  match shape with
+  | [] => []
+  | d :: shape' =>
+      match clean with
+      | SSingle i :: c' => (if 0 <=? i then i else i + d) :: slice_src shape' c' ridx
+      | SSub b e s :: c' =>
+          match ridx with
+          | x :: r => (py_begin d b s + py_step s * x) :: slice_src shape' c' r
+          | [] => []
+          end
+      | SEllipsis :: _ => []
+      | [] => match ridx with x :: r => x :: slice_src shape' [] r | [] => [] end
+      end
+  end.
+(* Ellipsis expansion: `...` stands for as many full ranges as needed to reach the rank *)
+Fixpoint expand_ellipsis (pad : nat) (slice : list slice_elem) : list slice_elem :=
+  match slice with
+  | [] => []
+  | SEllipsis :: r => repeat (SSub None None None) pad ++ expand_ellipsis pad r
+  | x :: r => x :: expand_ellipsis pad r
+  end.
